@@ -1655,6 +1655,10 @@ def c14_run(ctx, scale):
             raise vlib.Broken("no observation for " + rid)
         data_hex = datas[cid].hex()
         fail = None
+        if il and il[0] == "no-fifo":
+            # the sandbox has no `mkfifo`: the named-pipe schedule cannot be set up (counted, not judged)
+            res.distribution["fifo-unavailable"] = res.distribution.get("fifo-unavailable", 0) + 1
+            continue
         if expect == "same":
             if il != plain[cid]:
                 d = vlib.first_diff(plain[cid], il)
